@@ -49,7 +49,9 @@ pub fn gen(rng: &mut Rng, _index: u64) -> String {
         } else {
             gen_valid(rng, k)
         };
-        format!("C02.pred {} {}", proto::geom(&a), proto::geom(&b))
+        // half of the pair cases go through the concrete-type impls instead of the enum dispatch
+        let op = if rng.chance(1, 2) { "C02.pred" } else { "C02.cpred" };
+        format!("{} {} {}", op, proto::geom(&a), proto::geom(&b))
     }
 }
 
@@ -60,8 +62,41 @@ fn b(f: impl FnOnce() -> bool) -> String {
     }
 }
 
+/// Calls the *concrete-type* impls (not the Geometry-enum dispatch) for one ordered pair.
+macro_rules! concrete_pairs {
+    ($a:expr, $b:expr, [$($va:ident),*], $vbs:tt) => {
+        match $a {
+            $( Geometry::$va(x) => concrete_pairs!(@rhs x, $b, $vbs), )*
+        }
+    };
+    (@rhs $x:expr, $b:expr, [$($vb:ident),*]) => {
+        match $b {
+            $( Geometry::$vb(y) => format!(
+                "{} {} {} {}",
+                b(|| $x.intersects(y)),
+                b(|| y.intersects($x)),
+                b(|| $x.contains(y)),
+                b(|| $x.is_within(y))
+            ), )*
+        }
+    };
+}
+
+fn concrete(a: &Geometry<f64>, g: &Geometry<f64>) -> String {
+    concrete_pairs!(
+        a, g,
+        [Point, Line, LineString, Polygon, MultiPoint, MultiLineString, MultiPolygon, Rect, Triangle, GeometryCollection],
+        [Point, Line, LineString, Polygon, MultiPoint, MultiLineString, MultiPolygon, Rect, Triangle, GeometryCollection]
+    )
+}
+
 pub fn eval(op: &str, t: &mut Toks) -> R<String> {
     match op {
+        "C02.cpred" => {
+            let a = t.geom()?;
+            let g = t.geom()?;
+            Ok(concrete(&a, &g))
+        }
         "C02.pred" => {
             let a = t.geom()?;
             let g = t.geom()?;
